@@ -76,7 +76,8 @@ def run_revalidate(ctx):
 
 def run_pairing(ctx):
     F = ctx.facts()
-    users = F.field_accessors(WN, "assigned_pipelines", kinds=("m", "w"))
+    # functions changing either side of the pair (a function that only changes the counter must be examined too)
+    users = set(F.field_accessors(WN, "assigned_pipelines", kinds=("m", "w"))) | set(F.field_accessors(CAP, "pipelines_running", kinds=("m", "w")))
     ctx.floor("pairing", "functions mutating WorkerNode.assigned_pipelines", len(users), 4)
     for fn in sorted(users):
         name = fn.rsplit("::", 1)[1]
